@@ -8,6 +8,7 @@ import (
 	"math/rand"
 
 	"github.com/reactivego/ivg"
+	"github.com/reactivego/ivg/generate"
 	"github.com/reactivego/ivg/raster"
 	"github.com/reactivego/ivg/render"
 )
@@ -245,7 +246,11 @@ func driveC15(args []string) error {
 		var z render.Renderer
 		z.SetRasterizer(rr, cfg.rect)
 		z.Reset(ivg.ViewBox{MinX: cfg.vb[0], MinY: cfg.vb[1], MaxX: cfg.vb[2], MaxY: cfg.vb[3]}, defaultPal())
-		base := []int{10, 0, 58, 20}[rng.Intn(4)]
+		// (bases 1..5: the six matrix registers below the base wrap around from NREG[63] to NREG[0])
+		base := []int{10, 0, 58, 20, 1, 2, 3, 4, 5, 63}[rng.Intn(10)]
+		if i%8 == 6 {
+			base = 1 + i/8%5
+		}
 		z.SetNSel(uint8(base))
 		for k, v := range gcase.m {
 			z.SetNReg(uint8(6-k), false, v)
@@ -358,12 +363,59 @@ func driveC15(args []string) error {
 			}
 			aff := render.Aff3{1, 0, -0.5 - float64(ctr[0]), 0, 1, -0.5 - float64(ctr[1])}
 			if g.Init(render.ShapeRadial, render.Spread(spread), aff, st) {
-				for _, t := range [][2]int{{3, 4}, {5, 12}, {8, 15}, {20, 21}, {20, 99}, {99, 20}, {27, 120}, {45, 108}, {28, 195}, {65, 72}, {119, 120}, {696, 697}, {0, 7}, {9, 0}, {1, 1}, {2, 3}} {
+				for _, t := range [][2]int{{3, 4}, {5, 12}, {8, 15}, {20, 21}, {20, 99}, {99, 20}, {27, 120}, {45, 108}, {28, 195}, {65, 72}, {119, 120}, {696, 697}, {0, 7}, {9, 0}, {1, 1}, {2, 3}, {0, 1}, {1, 0}, {0, 2}, {3, 0}} {
 					for _, sg := range [][2]int{{1, 1}, {-1, 1}, {1, -1}, {-1, -1}} {
 						emitPix("Gradient.Init/pythagorean", &g, &g, stops, ctr[0]+sg[0]*t[0], ctr[1]+sg[1]*t[1])
 					}
 				}
 				stats["pythagorean"]++
+			}
+		}
+	}
+	// gradients written by the Generator's helpers and rendered by a real Renderer (one pixel = one unit): the pixel whose
+	// centre is the centre / the end of the radius vector / the end of an axis / a point of the perpendicular shows the
+	// colour of offset 0 / 1 / 1 / the same offset
+	for spread := 0; spread < 4; spread++ {
+		for kind := 0; kind < 3; kind++ {
+			rr := &RecRaster{}
+			var z render.Renderer
+			z.SetRasterizer(rr, image.Rect(0, 0, 8, 8))
+			z.Reset(ivg.ViewBox{MinX: 0, MinY: 0, MaxX: 8, MaxY: 8}, defaultPal())
+			g := &generate.Generator{}
+			g.SetDestination(&z)
+			gs := []generate.GradientStop{{Offset: 0, Color: color.RGBA{255, 0, 0, 255}}, {Offset: 0.5, Color: color.RGBA{0, 100, 0, 100}}, {Offset: 1, Color: color.RGBA{0, 0, 255, 255}}}
+			sp := generate.GradientSpread(spread)
+			var err error
+			var probes [][2]int
+			switch kind {
+			case 0:
+				err = g.SetCircularGradient(2.5, 2.5, 2, 0, sp, gs)
+				probes = [][2]int{{2, 2}, {4, 2}, {0, 2}, {2, 4}, {2, 0}, {3, 2}, {5, 2}, {6, 2}, {2, 7}}
+			case 1:
+				err = g.SetEllipticalGradient(2.5, 2.5, 2, 0, 0, 1, sp, gs)
+				probes = [][2]int{{2, 2}, {4, 2}, {0, 2}, {2, 3}, {2, 1}, {3, 2}, {2, 4}, {6, 2}}
+			default:
+				err = g.SetLinearGradient(0.5, 0.5, 4.5, 0.5, sp, gs)
+				probes = [][2]int{{0, 0}, {4, 0}, {2, 0}, {2, 3}, {2, 7}, {5, 0}, {6, 5}, {7, 7}, {4, 6}}
+			}
+			if err != nil {
+				return err
+			}
+			z.StartPath(0, 0, 0)
+			z.AbsHLineTo(8)
+			z.AbsVLineTo(8)
+			z.AbsHLineTo(0)
+			z.ClosePathEndPath()
+			for _, c := range rr.Calls {
+				if c.K != "Draw" {
+					continue
+				}
+				if gc, ok := c.img.(raster.GradientConfig); ok {
+					for _, p := range probes {
+						emitPix("Generator."+[]string{"SetCircularGradient", "SetEllipticalGradient", "SetLinearGradient"}[kind], c.img, gc, nil, p[0], p[1])
+					}
+					stats["helpers"]++
+				}
 			}
 		}
 	}
